@@ -29,6 +29,7 @@ void run_sorter(const SorterSpec &s, RunResult &res, SorterOutcome &out)
 	mc.fail_at = s.mergefail;
 	mtbl_sorter_options *so = mtbl_sorter_options_init();
 	if (s.max_mem) mtbl_sorter_options_set_max_memory(so, s.max_mem);
+	else if (s.set_zero) mtbl_sorter_options_set_max_memory(so, 0);
 	mtbl_sorter_options_set_temp_dir(so, s.tmpdir.c_str());
 	mtbl_sorter_options_set_merge_func(so, merge_union_cb, s.stateless_merge ? stateless_merge_ctx(s.mfunc) : (void *)&mc);
 	if (s.pool) mtbl_sorter_options_set_threadpool(so, s.pool);
@@ -39,7 +40,7 @@ void run_sorter(const SorterSpec &s, RunResult &res, SorterOutcome &out)
 	// model: multiset union per key; accounting of the documented memory budget
 	TableModel model = new_model();
 	size_t buffered = 0, nbuf = 0;
-	size_t limit = s.max_mem ? s.max_mem : 1073741824;
+	size_t limit = s.max_mem ? s.max_mem : s.set_zero ? 1 : 1073741824;
 	uint64_t seen_spills = 0, before_spills = 0; size_t since_spill = 0, chunk_no = 0;
 	std::map<Bytes, size_t> last_chunk;
 	if (s.check_spill) { sim_ledger lg; sim_ledger_get(&lg); seen_spills = before_spills = (uint64_t)lg.mkstemps; }
